@@ -36,6 +36,9 @@ pub struct SNF { pub name: Seq<u8>, pub ty: SV }
 pub struct SVar { pub name: Seq<u8>, pub data: SD }
 
 // ================= FNV-1a 64 =================
+// opaque: the hasher proofs are structural; only hash_update needs the arithmetic. (With the definition visible, a wrong tag
+// sends Z3 into nonlinear reasoning until the resource limit instead of producing a clean postcondition failure.)
+#[verifier::opaque]
 pub open spec fn fnv_step(s: u64, b: u8) -> u64 {
     (((s ^ (b as u64)) as int * 0x0000_0100_0000_01b3int) %% 0x1_0000_0000_0000_0000int) as u64
 }
@@ -438,7 +441,7 @@ pub mod fnv1a64 {
              sig="""        ensures r == fnv(state, bytes@),   // @obl:C16.V.fnv.hash_update
             bytes@.len() == 1 ==> r == fnv_step(state, bytes@[0]),   // @obl:C16.V.fnv.hash_update""",
              inserts=[("loop:0:before", "let ghost s0 = state;"),
-                      ("loop:0:end", "proof { assert(bytes@.subrange(0, idx as int).drop_last() =~= bytes@.subrange(0, idx as int - 1)); }"),
+                      ("loop:0:end", "proof { reveal(fnv_step); assert(bytes@.subrange(0, idx as int).drop_last() =~= bytes@.subrange(0, idx as int - 1)); }"),
                       ("loop:0:after", "proof { assert(bytes@.subrange(0, idx as int) =~= bytes@); if bytes@.len() == 1 { fnv1(s0, bytes@[0]); assert(bytes@ =~= seq![bytes@[0]]); } }")],
              loops={0: """            invariant idx <= bytes.len(), state == fnv(s0, bytes@.subrange(0, idx as int)), Fnv1a64Hasher::PRIME == 0x0000_0100_0000_01b3u64,
             decreases bytes.len() - idx"""},
